@@ -2,6 +2,9 @@ use crate::core::Ctx;
 use serde_json::Value;
 
 pub mod c01;
+pub mod c02;
+pub mod c03;
+pub mod c08;
 pub mod c10;
 
 pub const ALL: &[&str] = &[
@@ -11,6 +14,9 @@ pub const ALL: &[&str] = &[
 pub fn run(ctx: &mut Ctx) {
     match ctx.id {
         "C01" => c01::run(ctx),
+        "C02" => c02::run(ctx),
+        "C03" => c03::run(ctx),
+        "C08" => c08::run(ctx),
         "C10" => c10::run(ctx),
         other => {
             eprintln!("{other}: no engine built yet");
@@ -22,6 +28,9 @@ pub fn run(ctx: &mut Ctx) {
 pub fn replay(ctx: &mut Ctx, stage: &str, case: &Value) -> Result<(), String> {
     match ctx.id {
         "C01" => c01::replay(ctx, stage, case),
+        "C02" => c02::replay(ctx, stage, case),
+        "C03" => c03::replay(ctx, stage, case),
+        "C08" => c08::replay(ctx, stage, case),
         "C10" => c10::replay(ctx, stage, case),
         other => Err(format!("{other}: no engine built yet")),
     }
